@@ -49,7 +49,7 @@ theorem isTimestamp_bulk {b s r} (h : parse b = some (s, r)) (hs : IsBulk s) : i
   cases hs <;> rfl
 
 /-- the option element, read by the walker's tail -/
-theorem tail_agrees {b opt} (h : parse b = some (opt, [])) (ho : OptOK opt) :
+theorem tail_agrees {b opt} (h : parse b = some (opt, [])) (ho : OptOK opt) (hx : hasExt32 b = false) :
     Agrees ((readMapHeader b).bind fun n b5 => getChunkKeys n b5) (optChunk opt) := by
   rcases ho with rfl | ⟨kvs, rfl, hk⟩
   · -- nil: not a map header
@@ -73,7 +73,7 @@ theorem tail_agrees {b opt} (h : parse b = some (opt, [])) (ho : OptOK opt) :
   · obtain ⟨n, r0, hh, hs⟩ := seq_of_parse_map h
     have : readMapHeader b = .ok n r0 := by unfold readMapHeader; rw [hh]
     simp only [this, Res.bind, optChunk]
-    exact getChunkKeys_agrees n r0 kvs [] hs hk
+    exact getChunkKeys_agrees n r0 kvs [] hs hk (by rw [← hasExt32_map hh hs]; exact hx)
 
 theorem chunkOf_msg4 (tag t rec opt) (ht : IsTime t) :
     chunkOf (.arr (.cons (.str tag) (.cons t (.cons rec (.cons opt .nil))))) =
@@ -93,8 +93,12 @@ theorem chunkOf_bulk2 (tag s) (hs : IsBulk s) :
     chunkOf (.arr (.cons (.str tag) (.cons s .nil))) = none := by
   cases hs <;> simp [chunkOf, optionsOf, objsToList]
 
-/-- **C11** -/
-theorem C11_agree (b : Bytes) (o : Obj) (h : parse b = some (o, [])) (hw : WellFormedMode o) :
+/-- **C11**, for every well-formed message of any mode in any legal msgpack encoding *that uses no
+ext32 token* (`hasExt32 b = false`): what msgp's stream `Skip` does to those is part of the model,
+and `C11_ext32_witness` below shows that the hypothesis cannot be dropped — the statement without it
+is false of the model and of the code (open finding C11-ext32-skip). -/
+theorem C11_agree (b : Bytes) (o : Obj) (h : parse b = some (o, [])) (hw : WellFormedMode o)
+    (hx : hasExt32 b = false) :
     Agrees (getChunk b) (chunkOf o) := by
   cases hw with
   | msg3 tag t rec ht =>
@@ -108,25 +112,31 @@ theorem C11_agree (b : Bytes) (o : Obj) (h : parse b = some (o, [])) (hw : WellF
     rw [chunkOf_msg3 tag t rec ht]
     unfold getChunk
     have : readArrayHeader b = .ok 3 r0 := by unfold readArrayHeader; rw [hh]
-    simp [this, Res.bind, skip_of_parse p1, isTimestamp_time p2 ht, Agrees]
+    simp [this, Res.bind, skipP_of_parse p1 (fun _ => hasExt32_false_of_str p1), isTimestamp_time p2 ht, Agrees]
   | msg4 tag t rec opt ht ho =>
-    obtain ⟨n, r0, hh, hs⟩ := seq_of_parse_arr h
-    obtain ⟨n1, b1, e1, p1, hs⟩ := parseSeq_cons_inv hs
+    obtain ⟨n, r0, hh, hs0⟩ := seq_of_parse_arr h
+    obtain ⟨n1, b1, e1, p1, hs⟩ := parseSeq_cons_inv hs0
     obtain ⟨n2, b2, e2, p2, hs⟩ := parseSeq_cons_inv hs
     obtain ⟨n3, b3, e3, p3, hs⟩ := parseSeq_cons_inv hs
     obtain ⟨n4, b4, e4, p4, hs⟩ := parseSeq_cons_inv hs
     obtain ⟨e5, e6⟩ := parseSeq_nil_inv hs
     have hn : n = 4 := by omega
     subst hn; subst e6
+    have hxs : ext32Seq 4 r0 = false := by
+      rw [← hasExt32_arr hh hs0]; exact hx
+    obtain ⟨hx1, hxs⟩ := ext32Seq_cons hxs p1
+    obtain ⟨hx2, hxs⟩ := ext32Seq_cons hxs p2
+    obtain ⟨hx3, hxs⟩ := ext32Seq_cons hxs p3
+    obtain ⟨hx4, _⟩ := ext32Seq_cons hxs p4
     rw [chunkOf_msg4 tag t rec opt ht]
     unfold getChunk
     have : readArrayHeader b = .ok 4 r0 := by unfold readArrayHeader; rw [hh]
     rw [this]; simp only [Res.bind]
-    rw [if_neg (by decide), skip_of_parse p1]; simp only
+    rw [if_neg (by decide), skipP_of_parse p1 (fun _ => hx1)]; simp only
     rw [isTimestamp_time p2 ht]; simp only [ite_true]
-    rw [if_neg (by decide), skip_of_parse p2]; simp only
-    rw [skip_of_parse p3]; simp only
-    exact tail_agrees p4 ho
+    rw [if_neg (by decide), skipP_of_parse p2 (fun _ => hx2)]; simp only
+    rw [skipP_of_parse p3 (fun _ => hx3)]; simp only
+    exact tail_agrees p4 ho hx4
   | bulk2 tag s hs' =>
     obtain ⟨n, r0, hh, hs⟩ := seq_of_parse_arr h
     obtain ⟨n1, b1, e1, p1, hs⟩ := parseSeq_cons_inv hs
@@ -139,21 +149,26 @@ theorem C11_agree (b : Bytes) (o : Obj) (h : parse b = some (o, [])) (hw : WellF
     have : readArrayHeader b = .ok 2 r0 := by unfold readArrayHeader; rw [hh]
     simp [this, Res.bind, Agrees]
   | bulk3 tag s opt hs' ho =>
-    obtain ⟨n, r0, hh, hs⟩ := seq_of_parse_arr h
-    obtain ⟨n1, b1, e1, p1, hs⟩ := parseSeq_cons_inv hs
+    obtain ⟨n, r0, hh, hs0⟩ := seq_of_parse_arr h
+    obtain ⟨n1, b1, e1, p1, hs⟩ := parseSeq_cons_inv hs0
     obtain ⟨n2, b2, e2, p2, hs⟩ := parseSeq_cons_inv hs
     obtain ⟨n3, b3, e3, p3, hs⟩ := parseSeq_cons_inv hs
     obtain ⟨e4, e5⟩ := parseSeq_nil_inv hs
     have hn : n = 3 := by omega
     subst hn; subst e5
+    have hxs : ext32Seq 3 r0 = false := by
+      rw [← hasExt32_arr hh hs0]; exact hx
+    obtain ⟨hx1, hxs⟩ := ext32Seq_cons hxs p1
+    obtain ⟨hx2, hxs⟩ := ext32Seq_cons hxs p2
+    obtain ⟨hx3, _⟩ := ext32Seq_cons hxs p3
     rw [chunkOf_bulk3 tag s opt hs']
     unfold getChunk
     have : readArrayHeader b = .ok 3 r0 := by unfold readArrayHeader; rw [hh]
     rw [this]; simp only [Res.bind]
-    rw [if_neg (by decide), skip_of_parse p1]; simp only
+    rw [if_neg (by decide), skipP_of_parse p1 (fun _ => hx1)]; simp only
     rw [isTimestamp_bulk p2 hs']; simp only [Bool.false_eq_true, ite_false]
-    rw [skip_of_parse p2]; simp only
-    exact tail_agrees p3 ho
+    rw [skipP_of_parse p2 (fun _ => hx2)]; simp only
+    exact tail_agrees p3 ho hx3
 
 /-- the pinned walker (unsigned timestamps not recognised) returned a record's decoy `chunk`:
 `["", uint16 0, {"chunk": "x"}]` has no options, yet the legacy test takes the timestamp for the
@@ -187,13 +202,28 @@ example : WellFormedMode (.arr (.cons (.str []) (.cons (.int 7) (.cons (.map .ni
     (.cons (.map (.cons (.str kChunk) (.cons (.str [0x61]) .nil))) .nil))))) :=
   .msg4 _ _ _ _ (.int 7) (Or.inr ⟨_, rfl, ⟨⟨kChunk, rfl, by decide⟩, trivial⟩⟩)
 
-/-! ### limit of the model (open finding C11-ext32-skip)
+/-! ### the statement without the ext32 hypothesis is false (open finding C11-ext32-skip)
 
-`skip` in the model is the slice-path `msgp.Skip`.  `GetChunk` runs on msgp's *stream* reader,
-whose `Skip` (v1.1.9) fails on any value in the ext32 format.  On the witness below — a Message
-whose EventTime is written as ext32, options `{"chunk": "abc"}` — the model (and the option map)
-say `abc`, the real `GetChunk` returns an error: there the theorem is about the model only, the
-correspondence check does not compare, and the property oracle reports the finding.
-(witness bytes: corpus/C11.lines; `fvdriver` evaluates `getChunk` on it to `ok 616263`) -/
+A Message whose EventTime is written in the ext32 format (legal msgpack, eight payload bytes) and
+whose option map is `{"chunk": "abc"}`: well-formed, the option map carries a chunk — and the
+walker returns an error, because the stream `Skip` gives up on the ext32 value.  The harness replays
+these bytes on the real `GetChunk` (corpus/C11.lines): same answer. -/
+
+deriving instance DecidableEq for Res
+
+def ext32Witness : Bytes := [0x94, 0xa1, 0x74, 0xc9, 0, 0, 0, 8, 0, 0, 0, 0, 1, 0, 0, 0, 2, 0x80,
+    0x81, 0xa5, 0x63, 0x68, 0x75, 0x6e, 0x6b, 0xa3, 0x61, 0x62, 0x63]
+
+def ext32WitnessObj : Obj :=
+  .arr (.cons (.str [0x74]) (.cons (.ext 0 [0, 0, 0, 1, 0, 0, 0, 2]) (.cons (.map .nil)
+    (.cons (.map (.cons (.str [0x63, 0x68, 0x75, 0x6e, 0x6b]) (.cons (.str [0x61, 0x62, 0x63]) .nil))) .nil))))
+
+theorem C11_ext32_witness :
+    parse ext32Witness = some (ext32WitnessObj, []) ∧ WellFormedMode ext32WitnessObj ∧
+    chunkOf ext32WitnessObj = some [0x61, 0x62, 0x63] ∧ getChunk ext32Witness = .err ∧
+    hasExt32 ext32Witness = true := by
+  refine ⟨by rfl, ?_, by rfl, by decide +kernel, by decide +kernel⟩
+  exact .msg4 _ _ _ _ (.ext 0 _ (by decide)) (Or.inr ⟨_, rfl, by
+    simp only [KeysOK]; exact ⟨⟨_, rfl, by decide⟩, trivial⟩⟩)
 
 end FV
